@@ -125,5 +125,32 @@ def shrink_candidates(cfg, violation):
     return wl_ped.shrink_candidates(cfg, violation)
 
 
+def post_batch(tier, base_seed, results):
+    """Thorough tier: the compiled (JIT) code path - same seed, cache threshold in {-1, 0, 100, 10**6},
+    including runs long enough to overflow the real 2**16-node limit - must give identical traces."""
+    if tier != "thorough":
+        return {"evidence": {"compiled_cache_probe": "thorough tier only"}}
+    import json
+    import os
+    import subprocess
+    import sys
+    from . import cachedir
+    from .core import VERIF_DIR, HarnessError
+    env = dict(os.environ, NUMBA_DISABLE_JIT="0", NUMBA_CACHE_DIR=cachedir.numba_cache_dir())
+    n_cases = 96
+    cmd = [sys.executable, "-W", "ignore", os.path.join(VERIF_DIR, "sim", "probe_compiled.py"), "cache", str(base_seed), str(n_cases)]
+    p = subprocess.run(cmd, capture_output=True, text=True, env=env, timeout=3 * 3600)
+    if p.returncode != 0:
+        raise HarnessError("compiled cache probe failed: %s" % p.stderr[-1500:])
+    doc = json.loads(p.stdout.strip().splitlines()[-1])
+    out = {"evidence": {"compiled_cache_probe": {"cases": doc["cases"], "cases_overflowing_the_real_cache_limit": doc["big_cases"],
+                                                 "thresholds": [-1, 0, 100, 10 ** 6], "mismatches": len(doc["mismatches"])}}, "violations": []}
+    if doc["mismatches"]:
+        out["violations"].append({"class": "compiled_trajectory_depends_on_cache",
+                                  "message": "compiled DenovoMCMC.fit gives different traces for different llk_cache_threshold values with the same seed: %r" % doc["mismatches"][:3],
+                                  "detail": doc["mismatches"][:10], "rerun": " ".join(cmd)})
+    return out
+
+
 def evidence(tier, results, counters):
     return {}
